@@ -32,7 +32,8 @@ fn is_end_act(a: &Act) -> bool {
 fn c06_scn(name: &str, full: bool, preconfigured: bool) -> ChatScn {
     let mut cfg = oper_cfg(None);
     if preconfigured {
-        cfg.channels = vec![CfgChan { name: "#y".into(), topic: Some("kept".into()), ..Default::default() }];
+        // configured ranks: the victim is operator and bob voiced whenever they join #y
+        cfg.channels = vec![CfgChan { name: "#y".into(), topic: Some("kept".into()), operators: vec!["vic".into()], voices: vec!["bob".into(), "vic".into()], ..Default::default() }];
         cfg.label = "oper+preconfigured-#y".into();
     }
     let mut s = ChatScn::new(name, cfg, vec![part(0, "vic", "vicky", "vu"), part(1, "alice", "alicia", "au"), part(2, "bob", "bobby", "bu")], 1);
